@@ -226,6 +226,17 @@ func TestC17_RatioCounter(t *testing.T) {
 				bs = append(bs, ev{now, v})
 				slots[int64((now+phase)/r)] = true
 				log = append(log, fmt.Sprintf("incB(%d)", v))
+			case 4: // the number of events in the window, read before anything else has looked at the counter
+				got := rc.ProcessedCount()
+				la, ua := bounds(as, now, n, r)
+				lb, ub := bounds(bs, now, n, r)
+				log = append(log, fmt.Sprintf("processed=%d[%d..%d]", got, la+lb, ua+ub))
+				if got < la+lb || got > ua+ub {
+					t.Fatalf("N=%d r=%v at +%v: ProcessedCount()=%d outside [%d,%d] (a in %d..%d, b in %d..%d)\nhistory: %s", n, r, now, got, la+lb, ua+ub, la, ua, lb, ub, strings.Join(log, " "))
+				}
+				if rc.Buckets() != n || rc.Resolution() != r || rc.WindowSize() != time.Duration(n)*r {
+					t.Fatalf("a %d x %v ratio counter describes itself as %d x %v (window %v)", n, r, rc.Buckets(), rc.Resolution(), rc.WindowSize())
+				}
 			case 2, 3:
 				got := rc.Ratio()
 				_ = rc.IsReady() // must not panic; readiness itself is not specified by the statement
